@@ -420,12 +420,15 @@ func runSeedPatch(repo, prop string, pm *propMeta, patchPath string) int {
 		}
 	}
 	for _, f := range files {
+		os.MkdirAll(filepath.Dir(filepath.Join(tmp, f)), 0o755)
 		src, err := os.ReadFile(filepath.Join(repo, f))
 		if err != nil {
+			if strings.Contains(string(diff), "--- /dev/null\n+++ b/"+f) {
+				continue // a file the change adds
+			}
 			fmt.Printf("MUTANT skipped seed:%s (file %s missing)\n", name, f)
 			return 3
 		}
-		os.MkdirAll(filepath.Dir(filepath.Join(tmp, f)), 0o755)
 		os.WriteFile(filepath.Join(tmp, f), src, 0o644)
 	}
 	cmd := exec.Command("patch", "-p1", "-s", "--no-backup-if-mismatch", "-d", tmp, "-i", patchPath)
@@ -464,6 +467,18 @@ func runSeedPatch(repo, prop string, pm *propMeta, patchPath string) int {
 			hits = append(hits, o.ID)
 		}
 	}
+	if strings.Contains(patchPath, string(filepath.Separator)+"refactors"+string(filepath.Separator)) {
+		// a confirmed behaviour-preserving refactoring: every report is a false alarm
+		if len(hits) == 0 {
+			fmt.Printf("MUTANT silent-ok refactor:%s (behaviour-preserving refactoring, no report)\n", name)
+			return 0
+		}
+		if len(hits) > 3 {
+			hits = hits[:3]
+		}
+		fmt.Printf("MUTANT false-alarm refactor:%s (behaviour-preserving refactoring reported: %s)\n", name, strings.Join(hits, ","))
+		return 6
+	}
 	if len(hits) > 0 {
 		if len(hits) > 3 {
 			hits = hits[:3]
@@ -482,6 +497,9 @@ func runMutants(verif, repo, prop string) map[string]interface{} {
 	seeds, _ := filepath.Glob(filepath.Join(verif, "seeded", prop+"-*", "patch.diff"))
 	sort.Strings(seeds)
 	files = append(files, seeds...)
+	refs, _ := filepath.Glob(filepath.Join(verif, "refactors", prop+"-*", "patch.diff"))
+	sort.Strings(refs)
+	files = append(files, refs...)
 	type res struct {
 		name, out string
 		code      int
